@@ -1,22 +1,24 @@
 #![allow(non_snake_case, unused, non_camel_case_types)]
 // Unit bubble_dew  [S]  — C05.3: a bubble/dew point iteration says Ok only when its convergence test
 // passed for the error value in hand AND the test for copies ("trivial solution") was negative for
-// the two phases it returns.  Control skeleton of feos-core/src/phase_equilibria/bubble_dew.rs::bubble_dew.
+// the two phases it returns.  The test is kept over the reals (rule S10): the error of the last outer step and the
+// tolerance of the OUTER options (the user's second SolverOptions, default TOL_OUTER) are abstract floats; `Ok` means
+// err_out < tol_outer for exactly these two.  Control skeleton of feos-core/src/phase_equilibria/bubble_dew.rs::bubble_dew.
 use vstd::prelude::*;
 verus! {
 //@include contracts/s/prelude.rs
 //@skeleton feos-core/src/phase_equilibria/bubble_dew.rs bubble_dew
 //@returns Result<(), SkErr>
 //@params bubble: bool
-//@flag tested
+//@keep err_out: Fl
+//@keep options_outer.tol.unwrap_or(TOL_OUTER) as tol_o: Fl
 //@flag distinct
-//@on then err_out < options_outer.tol.unwrap_or(TOL_OUTER) => tested = true;
-//@on assign err_out => tested = false;
+//@flag conv
+//@on then err_out < $..t => conv = fl_lt(err_out, tol_o);
 //@on else PhaseEquilibrium::is_trivial_solution(&state1, &state2) => distinct = true;
 //@on mutarg state1 => distinct = false;
 //@on mutarg state2 => distinct = false;
     ensures
-        // "the phases are not copies of each other"; Ok only on the converged path
         r.0 is Ok ==> r.1 && r.2,
 //@loop 0
     invariant distinct
